@@ -301,6 +301,24 @@ abbrev SSchema := List (Name × List SField)
 def isSpace (c : Char) : Bool :=
   c = ' ' || c = '\t' || c = '\n' || c = '\r' || c.toNat = 11 || c.toNat = 12
   || (28 ≤ c.toNat && c.toNat ≤ 31) || c.toNat = 0x85 || c.toNat = 0xa0
+  || c.toNat = 0x1680 || (0x2000 ≤ c.toNat && c.toNat ≤ 0x200a) || c.toNat = 0x2028 || c.toNat = 0x2029
+  || c.toNat = 0x202f || c.toNat = 0x205f || c.toNat = 0x3000
+
+/-- the characters `str.splitlines` breaks at -/
+def isLineBreak (c : Char) : Bool :=
+  c = '\n' || c = '\r' || c.toNat = 11 || c.toNat = 12 || (28 ≤ c.toNat && c.toNat ≤ 30)
+  || c.toNat = 0x85 || c.toNat = 0x2028 || c.toNat = 0x2029
+
+/-- `str.splitlines()`: `\r\n` is one break; no empty last line after a final break -/
+def splitlinesAux : List Char → List Char → List Line
+  | cur, [] => if cur.isEmpty then [] else [cur.reverse]
+  | cur, [c] => if isLineBreak c then [cur.reverse] else [(c :: cur).reverse]
+  | cur, c :: d :: cs =>
+    if c = '\r' && d = '\n' then cur.reverse :: splitlinesAux [] cs
+    else if isLineBreak c then cur.reverse :: splitlinesAux [] (d :: cs)
+    else splitlinesAux (c :: cur) (d :: cs)
+
+def splitlinesPy (t : List Char) : List Line := splitlinesAux [] t
 
 /-- `str.ljust(n)` -/
 def ljust (n : Nat) (s : List Char) : List Char := s ++ List.replicate (n - s.length) ' '
@@ -416,6 +434,13 @@ def writeSchemaFile (target : SSchema) : List Line := formatSchema target
 /-- `tsdb.Database(path)` / `read_schema(path)` on that directory -/
 def openSchema (relationsFile : List Line) : Except Err SSchema := parseSchema relationsFile
 
+/-- `write_schema`: the characters of the `relations` file, `_format_schema(schema) + '\n'` -/
+def writeSchema (s : SSchema) : List Char := toText (formatSchema s)
+
+/-- `read_schema`: `_parse_schema(path.read_text())` (the universal-newline translation of
+`read_text` maps `\r\n` and `\r` to `\n`, all of which `splitlines` treats as one break anyway) -/
+def readSchema (t : List Char) : Except Err SSchema := parseSchema (splitlinesPy t)
+
 def dtypeText : DType → List Char
   | .integer => ":integer".toList
   | .string => ":string".toList
@@ -435,5 +460,86 @@ def SSchema.toSchema (ss : SSchema) : Option Schema :=
   ss.mapM (fun t => do
     let fs ← t.2.mapM (fun f => do pure ({ name := f.name, dt := ← dtypeOfText f.datatype } : Field))
     pure (t.1, fs))
+
+/-! ### the reading interfaces: `tsdb.open`, `Database.__getitem__`, `Database.select_from` -/
+
+/-- `tsdb.open(dir, name)` iterated: the lines of the chosen file (plain or `.gz` by `_get_paths`)
+with their terminators; `TSDBError` if neither file exists -/
+def openLines (r : Rel) : Except Err (List (List Char)) :=
+  match r.read with
+  | none => .error .tsdbError
+  | some ls => .ok ((splitLines (toText ls)).map (· ++ ['\n']))
+
+/-- `split(line)` without fields -/
+def splitLine (line : List Char) : Except Err RawRec :=
+  match splitRaw line with
+  | .ok r => .ok r
+  | .error e => .error (ofC08 e)
+
+/-- `make_field_index(fields)[name]`: a dict comprehension, the LAST column of a name wins -/
+def fieldIndex (fields : List Field) (n : Name) : Option Nat :=
+  lookupLast ((fields.map (·.name)).zip (List.range fields.length)) n
+
+/-- `indices = [index[column] for column in columns]` (`KeyError` for an unknown column; all
+columns when `columns is None`) -/
+def selIndices (fields : List Field) (cols : Option (List Name)) : Except Err (List Nat) :=
+  (cols.getD (fields.map (·.name))).mapM (fun c =>
+    match fieldIndex fields c with
+    | some i => .ok i
+    | none => .error .keyError)
+
+/-- `tuple(record[idx] for idx in indices)` (`IndexError` for a short record) -/
+def projectRow {α} (idxs : List Nat) (rec : List α) : Except Err (List α) :=
+  idxs.mapM (fun i => match rec[i]? with | some x => .ok x | none => .error .indexError)
+
+/-- `cast(datatype, raw_value)` -/
+def castCell (dt : DType) (c : Option (List Char)) : Except Err Val :=
+  match C08.cast dt (c.getD []) with
+  | .val v => .ok v
+  | .err e => .error (ofC08 e)
+
+/-- `Database(autocast=False).select_from(name, columns)` -/
+def selectRaw (fields : List Field) (cols : Option (List Name)) (r : Rel) : Except Err (List RawRec) := do
+  let idxs ← selIndices fields cols
+  let lines ← openLines r
+  lines.mapM (fun l => do projectRow idxs (← splitLine l))
+
+/-- `Database(autocast=False).select_from(name, columns, cast=True)`: only the selected cells are
+cast, one after the other -/
+def selectCast (fields : List Field) (cols : Option (List Name)) (r : Rel) : Except Err (List (List Val)) := do
+  let idxs ← selIndices fields cols
+  let lines ← openLines r
+  lines.mapM (fun l => do
+    let rec_ ← splitLine l
+    idxs.mapM (fun i =>
+      match fields[i]?, rec_[i]? with
+      | some f, some c => castCell f.dt c
+      | _, _ => .error .indexError))
+
+/-- `Database(autocast=True).select_from(name, columns)` (the `cast` flag is then ignored): whole
+records are split with the fields (count checked, every cell cast), then projected -/
+def selectAuto (fields : List Field) (cols : Option (List Name)) (r : Rel) : Except Err (List (List Val)) := do
+  let idxs ← selIndices fields cols
+  let lines ← openLines r
+  lines.mapM (fun l => do projectRow idxs (← castRow fields (← splitLine l)))
+
+/-! ### a database directory: the `relations` file and the relation files -/
+
+structure DbDir where
+  relations : Option (List Char) := none
+  files : Files
+
+/-- `write_database` on a directory: the `relations` file is `write_schema(path, schema)` of the
+target schema — written before the loop, so also when the loop raises — and the relation files are
+those of `writeDb`.  `tss` is the target schema with flags and comments. -/
+def writeDbDir (now : Nat) (q : DbReq) (tss : SSchema) (src : Files) (dst : DbDir) : DbDir × Option Err :=
+  match writeDb now q src dst.files with
+  | (d, e) => ({ relations := some (writeSchema tss), files := d }, e)
+
+/-- `tsdb.Database(path).schema` -/
+def reopenSchema (d : DbDir) : Except Err SSchema :=
+  match d.relations with
+  | none => .error .tsdbError
+  | some t => readSchema t
 
 end Verif.C09
